@@ -18,7 +18,9 @@ TITLES = [("A", 0), ("A b", 0), ("Ä", 0), ("ßeta", 0), ("中", 0), ("A.b", 0),
           ("Template:T", 10), ("File:I.png", 6), ("Category:C", 14)]
 TEXTS = ["x", "", "a\nb", "a\r\nb", "--page--", "x\n --page-- {}", "\x0c --page-- {}", "x\n", "x\n\n", "\nx", " x ", "ü \U0001F600",
          "\n\x0c--page--", "{\"title\": \"A\"}", "x\r", "\r", "a\rb\r", "x\r\n", "\x0c", "x ", "\t",
-         "#REDIRECT [[Nowhere]] is how a redirect is written", "#redirect [[Nowhere]]"]
+         "#REDIRECT [[Nowhere]] is how a redirect is written", "#redirect [[Nowhere]]",
+         # a page that QUOTES the redirect syntax somewhere else than at its start, pointing at a page of the same archive
+         "To redirect write\n#REDIRECT [[A b]]\non the first line", "1. #redirect [[A]] 2. save"]
 METHODS = ["pages-batch", "pages-single", "expanded-revid", "expanded-norevid"]
 
 
